@@ -3,7 +3,12 @@ import RomeaModel.Normals
 open Romea Romea.Proto Romea.Normals
 
 /-! Driver for C09: the normal-estimation model at `Float` / `Float32`, with a brute-force k-NN and a cyclic
-    Jacobi eigen-solver plugged in for the two oracle parameters. -/
+    Jacobi eigen-solver plugged in for the two oracle parameters.
+      nrm.compute T k overload init n coords...   one call, objects built for it (`computeAll`)
+      nrm.cloud T n coords...                     the case keeps a point set of type T with a kd-tree built on it
+      nrm.est T k                                 the case keeps an estimator of type T with k neighbours
+      nrm.use T overload init                     the kept estimator runs on the kept point set (`t` overloads: through
+                                                  the kept tree) — `Session.step`, estimator state threaded (`computeS`) -/
 
 section Generic
 variable {α : Type} [Add α] [Sub α] [Mul α] [Div α] [Neg α] [LT α] [DecidableLT α] [NatCast α] [Trans α]
@@ -106,6 +111,19 @@ def knnBruteF (dim : Nat) (coords : FloatArray) (n k i : Nat) : List Nat := Id.r
   let r := jacobi n a
   { vals := fun i => r.1[i.val]!, vecs := fun i j => r.2[i.val]![j.val]! }
 
+def groups {β : Type} (k : Nat) (l : List β) : List (List β) :=
+  if _h : k = 0 ∨ l.length < k then [] else l.take k :: groups k (l.drop k)
+termination_by l.length
+decreasing_by simp_all; omega
+
+def fmtOuts (m : Nat) (hom : Bool) (ov : Overload) (fmt : α → String) (outs : List (Out (m + 2) α)) : String :=
+  let toks := outs.foldl (fun (acc : Array String) o =>
+    let acc := (List.finRange (m + 2)).foldl (fun acc i => acc.push (fmt (o.normal i))) acc
+    let acc := if hom then acc.push (fmt o.w) else acc
+    let acc := if ov.hasCurvature then acc.push (fmt o.curvature) else acc
+    if ov.hasReliability then acc.push (fmt o.reliability) else acc) #[]
+  unwords (["ok", toString outs.length] ++ toks.toList)
+
 @[specialize] def runCloud (m : Nat) (hom : Bool) (k : Nat) (ov : Overload) (coords : Array (Array α)) (toF : α → Float)
     (fmt : α → String) : String :=
   let pts : Array (Vec (m + 2) α) := coords.map fun c => (fun i => c[i.val]!)
@@ -113,12 +131,46 @@ def knnBruteF (dim : Nat) (coords : FloatArray) (n k i : Nat) : List Nat := Id.r
   -- the kd-tree stores the whole point vector (for homogeneous points the extra coordinate is 1 everywhere and
   -- contributes nothing to a distance)
   let outs := computeAll hom (eigOracle m) (knnBruteF (m + 2) flat coords.size k) pts
-  let toks := outs.foldl (fun (acc : Array String) o =>
-    let acc := (List.finRange (m + 2)).foldl (fun acc i => acc.push (fmt (o.normal i))) acc
-    let acc := if hom then acc.push (fmt o.w) else acc
-    let acc := if ov.hasCurvature then acc.push (fmt o.curvature) else acc
-    if ov.hasReliability then acc.push (fmt o.reliability) else acc) #[]
-  unwords (["ok", toString outs.length] ++ toks.toList)
+  fmtOuts m hom ov fmt outs
+
+/-- per-type state of the driver between ops of one case: the model's `Session` (caller-owned point set + kd-tree,
+    estimator object) and the flattened binary64 copy of the point set the brute-force k-NN oracle reads -/
+structure Slot (α : Type) (m : Nat) where
+  sess : Session (m + 2) α := {}
+  flat : FloatArray := FloatArray.empty
+  n : Nat := 0
+
+inductive Cmd
+  | cloud (n : Nat) (coords : List String)
+  | est (k : Nat)
+  | use (ov : Overload) (init : String)
+
+/-- `nrm.cloud` / `nrm.est` / `nrm.use` on one slot, through the model's `Session.step` -/
+@[specialize] def slotOp (m : Nat) (hom : Bool) (parse : String → Option α) (toF : α → Float) (fmt : α → String)
+    (sl : Slot α m) : Cmd → Slot α m × String
+  | .cloud n rest =>
+    let dim := m + 2
+    if n = 0 ∨ rest.length ≠ n * dim then (sl, "bad-op") else
+    match parseAll? parse rest with
+    | none => (sl, "bad-op")
+    | some cs =>
+      let coords : Array (Array α) := (groups dim cs).toArray.map List.toArray
+      let pts : Array (Vec (m + 2) α) := coords.map fun c => (fun i => c[i.val]!)
+      let flat : FloatArray := coords.foldl (fun acc c => c.foldl (fun acc x => acc.push (toF x)) acc)
+        (FloatArray.emptyWithCapacity (coords.size * dim))
+      let knn : Array (Vec (m + 2) α) → Nat → Nat → List Nat := fun _ _ _ => []
+      ({ sess := (sl.sess.step hom (eigOracle m) knn (.setCloud pts)).1, flat := flat, n := n }, "ok " ++ toString n)
+  | .est k =>
+    if k = 0 then (sl, "bad-op") else
+    let knn : Array (Vec (m + 2) α) → Nat → Nat → List Nat := fun _ _ _ => []
+    ({ sl with sess := (sl.sess.step hom (eigOracle m) knn (.setEst k)).1 }, "ok")
+  | .use ov init =>
+    if init ∉ ["default", "zero", "junk"] then (sl, "bad-op") else
+    -- the tree of the session is the one built on `sl.flat` (same point set as `sl.sess.cloud`)
+    let knn : Array (Vec (m + 2) α) → Nat → Nat → List Nat := fun _ k i => knnBruteF (m + 2) sl.flat sl.n k i
+    match sl.sess.step hom (eigOracle m) knn .use with
+    | (s', some outs) => ({ sl with sess := s' }, fmtOuts m hom ov fmt outs.toList)
+    | (_, none) => (sl, "bad-op")
 
 end Generic
 
@@ -133,13 +185,45 @@ def parseOverload? : String → Option Overload
   | "n" => some .normals | "nt" => some .normalsTree | "c" => some .curv | "ct" => some .curvTree
   | "r" => some .rel | "rt" => some .relTree | _ => none
 
-def groups {β : Type} (k : Nat) (l : List β) : List (List β) :=
-  if _h : k = 0 ∨ l.length < k then [] else l.take k :: groups k (l.drop k)
-termination_by l.length
-decreasing_by simp_all; omega
+/-- one slot per point type (index: homogeneous?) -/
+structure DrvState where
+  d2 : Bool → Slot Float 0 := fun _ => {}
+  d3 : Bool → Slot Float 1 := fun _ => {}
+  f2 : Bool → Slot Float32 0 := fun _ => {}
+  f3 : Bool → Slot Float32 1 := fun _ => {}
 
-def step (st : Unit) (toks : List String) : Unit × String :=
+def upd {β : Type} (f : Bool → β) (h : Bool) (v : β) : Bool → β := fun b => if b = h then v else f b
+
+def sessionOp (st : DrvState) (ty : String) (cmd : Cmd) : DrvState × String :=
+  match parseType? ty with
+  | some (0, hom, false) =>
+    let r := slotOp 0 hom parseF64? id fmtF64 (st.d2 hom) cmd
+    ({ st with d2 := upd st.d2 hom r.1 }, r.2)
+  | some (1, hom, false) =>
+    let r := slotOp 1 hom parseF64? id fmtF64 (st.d3 hom) cmd
+    ({ st with d3 := upd st.d3 hom r.1 }, r.2)
+  | some (0, hom, true) =>
+    let r := slotOp 0 hom parseF32? Float32.toFloat fmtF32 (st.f2 hom) cmd
+    ({ st with f2 := upd st.f2 hom r.1 }, r.2)
+  | some (1, hom, true) =>
+    let r := slotOp 1 hom parseF32? Float32.toFloat fmtF32 (st.f3 hom) cmd
+    ({ st with f3 := upd st.f3 hom r.1 }, r.2)
+  | _ => (st, "bad-op")
+
+def step (st : DrvState) (toks : List String) : DrvState × String :=
   match toks with
+  | "nrm.cloud" :: ty :: n :: rest =>
+    match n.toNat? with
+    | some n => sessionOp st ty (.cloud n rest)
+    | none => (st, "bad-op")
+  | ["nrm.est", ty, k] =>
+    match k.toNat? with
+    | some k => sessionOp st ty (.est k)
+    | none => (st, "bad-op")
+  | ["nrm.use", ty, ov, init] =>
+    match parseOverload? ov with
+    | some ov => sessionOp st ty (.use ov init)
+    | none => (st, "bad-op")
   | "nrm.compute" :: ty :: k :: ov :: init :: n :: rest =>
     match parseType? ty, k.toNat?, parseOverload? ov, n.toNat? with
     | some (m, hom, isF), some k, some ov, some n =>
@@ -160,4 +244,4 @@ def step (st : Unit) (toks : List String) : Unit × String :=
     | _, _, _, _ => (st, "bad-op")
   | _ => (st, "bad-op")
 
-def main : IO Unit := Proto.run () step
+def main : IO Unit := Proto.run ({} : DrvState) step
